@@ -72,12 +72,27 @@ theorem estep_openPhrase (sh : Shared D L) : EStep [.none] sh.com (openPhrase en
   · exact estep_newPhrase env sh sh' t h1
   · exact did_none (by simp) (pushClampPop_inner _)
 
+/-- `open_symbol`: the shared state is untouched -/
+theorem estep_openSymbol {ks : List Kind} (hk : Kind.none ∈ ks) (sh : Shared D L) :
+    EStep ks sh.com (openSymbol env sh) := by
+  intro sh' t h
+  obtain ⟨rfl, _⟩ := openSymbol_cases env h
+  exact did_none hk rfl
+
+/-- `open_special_symbol`: `new_special_symbol`, or the cursor saved, clamped and restored -/
+theorem estep_openSpecialSymbol (sh : Shared D L) (sym : Sym) :
+    EStep [.none] sh.com (openSpecialSymbol env sh sym) := by
+  intro sh' t h
+  rcases openSpecialSymbol_cases env h with ⟨h1, _⟩ | ⟨_, rfl⟩
+  · exact estep_newSpecialSymbol sh sym sh' t h1
+  · exact did_none (by simp) (pushClampPop_inner _)
+
 theorem estep_startSelecting (sh : Shared D L) : EStep [.none] sh.com (startSelecting env sh) := by
   unfold startSelecting
   repeat' split
   all_goals first
     | exact estep_openPhrase env _
-    | exact estep_newSpecialSymbol _ _
+    | exact estep_openSpecialSymbol env _ _
     | estep_leaf (did_none (by simp) rfl)
 
 theorem estep_startSelectingOrInputSpace (sh : Shared D L) :
@@ -86,7 +101,7 @@ theorem estep_startSelectingOrInputSpace (sh : Shared D L) :
   repeat' split
   all_goals first
     | exact estep_openPhrase env _
-    | exact estep_newSpecialSymbol _ _
+    | exact estep_openSpecialSymbol env _ _
     | estep_leaf (did_none (by simp) rfl)
 
 /-- learning a phrase does not touch the composition editor -/
@@ -111,6 +126,7 @@ theorem estep_enteringDefault (sh : Shared D L) (ev : KeyEvent) :
     | exact estep_inputChar _ _
     | exact estep_chineseFallback _ _
     | exact estep_chineseFallback { sh with syl := (env.keyPress sh.syl ev).2 } ev
+    | exact estep_openSymbol env (by simp) _
     | estep_leaf (did_none (by simp) rfl)
 
 theorem estep_enteringBackspace (sh : Shared D L) : EStep [.none, .bksp] sh.com (enteringBackspace sh) := by
@@ -124,6 +140,7 @@ theorem estep_enteringCtrlDigit (sh : Shared D L) (c : Nat) : EStep [.none] sh.c
   repeat' (first | split | (dsimp only; split))
   all_goals first
     | exact estep_learnTrans env _ _ _
+    | exact estep_openSymbol env (by simp) _
     | estep_leaf (did_none (by simp) rfl)
 
 theorem estep_enteringTabInside (sh : Shared D L) :
